@@ -1,0 +1,45 @@
+//go:build verif
+
+// Contracts for package preprocessor (comment-only; compiled to nothing).
+
+package preprocessor
+
+// IgnoreSelfLoops takes the self-loops out of the graph and hands back a function that puts them in again (C02:
+// every input edge is in the output exactly once). What the composition needs from the first half:
+//   - the list of removed edges holds exactly the self-loops of g.Edges, in edge list order;
+//   - that list lives in memory allocated by this call (assert[private]): nothing the pipeline later does to the
+//     graph's own lists - e.g. appending edge fragments to g.Edges - can overwrite it before it is used again.
+//@ func IgnoreSelfLoops
+//@   requires g != nil
+//@   requires forall i int :: 0 <= i && i < len(g.Edges) ==> g.Edges[i] != nil && g.Edges[i].From != nil && g.Edges[i].To != nil
+//@   loop range(g.Edges)#1 index a
+//@     invariant[private] arr(del) == 0 || !old(allocatedArr(now(del)))
+//@     invariant[loops] forall k int :: 0 <= k && k < len(del) ==> del[k] != nil && del[k].From != nil && del[k].From == del[k].To
+//@        && (exists i int :: 0 <= i && i < a && g.Edges[i] == del[k])
+//@     invariant[all] forall i int :: 0 <= i && i < a && g.Edges[i].From == g.Edges[i].To ==> (exists k int :: 0 <= k && k < len(del) && del[k] == g.Edges[i])
+//@     invariant len(g.Edges) == old(len(g.Edges)) && (forall i int :: 0 <= i && i < len(g.Edges) ==> g.Edges[i] == old(g.Edges[i]))
+//@   assert[all] after "for _, e := range g.Edges" : forall i int :: 0 <= i && i < old(len(g.Edges)) && old(g.Edges[i].From == g.Edges[i].To) ==> (exists k int :: 0 <= k && k < len(del) && del[k] == old(g.Edges[i]))
+//@   loop range(del)#1 index b
+//@     invariant[private] arr(del) == 0 || !old(allocatedArr(now(del)))
+//@     invariant arr(g.Edges) == old(arr(g.Edges)) && (forall n *Node :: arr(n.In) == old(arr(n.In)) && arr(n.Out) == old(arr(n.Out)))
+//@     invariant forall k int :: 0 <= k && k < len(del) ==> del[k] == loopold(del[k])
+//@     invariant forall f *Edge :: f.From == old(f.From) && f.To == old(f.To)
+//@   assert[private] before "return func" : arr(del) == 0 || !old(allocatedArr(now(del)))
+//@   assert[loops] before "return func" : forall k int :: 0 <= k && k < len(del) ==> del[k] != nil && del[k].From != nil && del[k].From == del[k].To
+
+// The restore function: every removed self-loop is appended to the edge list again (and to the adjacency lists of
+// its node); the edges that are in the list keep their places.
+//@ func IgnoreSelfLoops$1
+//@   requires g != nil
+//@   requires forall k int :: 0 <= k && k < len(del) ==> del[k] != nil && del[k].From != nil && del[k].To != nil
+//@   requires[private] allocatedArr(del) && arr(del) != arr(g.Edges) && (forall n *Node :: arr(del) != arr(n.In) && arr(del) != arr(n.Out))
+//@   requires[sep] allocatedArr(g.Edges) && (forall n *Node :: arr(n.In) != arr(g.Edges) && arr(n.Out) != arr(g.Edges))
+//@   ensures[back] len(g.Edges) == old(len(g.Edges)) + len(del) && (forall k int :: 0 <= k && k < len(del) ==> g.Edges[old(len(g.Edges)) + k] == del[k])
+//@   ensures[kept] forall j int :: 0 <= j && j < old(len(g.Edges)) ==> g.Edges[j] == old(g.Edges[j])
+//@   loop range(del)#2 index c
+//@     invariant allocatedArr(g.Edges) && (forall n *Node :: arr(n.In) != arr(g.Edges) && arr(n.Out) != arr(g.Edges))
+//@     invariant allocatedArr(del) && arr(del) != arr(g.Edges) && (forall n *Node :: arr(del) != arr(n.In) && arr(del) != arr(n.Out))
+//@     invariant forall k int :: 0 <= k && k < len(del) ==> del[k] == old(del[k])
+//@     invariant len(g.Edges) == old(len(g.Edges)) + c && (forall k int :: 0 <= k && k < c ==> g.Edges[old(len(g.Edges)) + k] == del[k])
+//@     invariant forall j int :: 0 <= j && j < old(len(g.Edges)) ==> g.Edges[j] == old(g.Edges[j])
+//@     invariant forall f *Edge :: f.From == old(f.From) && f.To == old(f.To)
